@@ -92,6 +92,14 @@ def gen_case(rng, i, multi_every=6, share_every=4, shipped_every=3, n_samples=1,
         name, rec = rng.choice(pl.shipped_recipes())
         return Case(mb, info, recipe=rec, data=data, desc=name)
     cmds = pl.gen_recipe(rng, mb)
+    if "multi_output_op" in info["tags"] and rng.random() < 0.6:
+        # a rule that matches a multi-result operator only through its SECOND result name (its scope is all result names joined)
+        m_ = pl.read(mb)
+        seconds = [pl.tname(sg.tensors[op.outputs[1]]) for sg in m_.subgraphs for op in sg.operators if len(op.outputs) > 1]
+        if seconds:
+            cmds.append({"k": "add", "regex": re.escape(rng.choice(seconds)) + ";", "operation": "*", "cfg": pl.UNIFORM[rng.choice(["a8w8", "a16w8"])],
+                         "alg": "min_max_uniform_quantize"})
+            info["tags"].add("rule_on_second_result_name")
     late = None
     r = rng.random()
     if r < 0.07:
